@@ -49,6 +49,12 @@ def t3(rep, tier, seed):
         dom.append({"values": [rng.randint(1, 200) for _ in range(n)], "k": k})
     rep.add(H.run_case("C18/T3/exact-algorithms/agreement", "cg, dp, ilp, ckk, snp, rnp", T.c18_agree_case, dom,
                        "seeded random instances of 11..16 items (quick: 11..12), 2..5 bins, values 1..200; three objectives; heuristics never better", chunk=1))
+    # the exact packer is never worse than the packing heuristics: bin-completion against FFD / BFD / the exhaustive optimum on instances whose
+    # items sit on the thresholds of its pruning rules (exact halves, thirds), 7-8 items
+    from props._domains import threshold_packs
+    from runtime import t3_pack as TP
+    rep.add(H.run_case("C18/T3/bc/never-worse-than-the-heuristics", "prtpy/packing/bin_completion.py::bin_completion", TP.c04_case, threshold_packs(tier, sizes=(8,)),
+                       "threshold packs: 8 items from {B/2, B/3, B/4 and neighbours}, B in {10, 12}; oracle = exhaustive optimum, FFD, BFD", chunk=64))
 
 
 def run(rep, tier, seed):
